@@ -834,7 +834,7 @@ fn api_built_packet(t: &mut Tape) -> Result<(Packet, String), String> {
             (Packet::from(SymEncryptedProtectedData::encrypt_seipdv2(&mut rng, alg, aead, cs, &key, &expand(t.u64(), n)).map_err(e)?), format!("SymEncryptedProtectedData::encrypt_seipdv2 ({alg:?}, {aead:?}, {cs:?}, {n} bytes)"))
         }
         9 => {
-            let s = ["", "Alice <alice@example.org>", "ü", "x"][t.below(4)].repeat(*t.pick(&[1usize, 1, 50, 200, 3000]));
+            let s = if t.chance(90) { "x".repeat(*t.pick(&[191usize, 192, 255, 256, 8383, 8384, 65_535, 65_536, 65_537])) } else { ["", "Alice <alice@example.org>", "ü", "x"][t.below(4)].repeat(*t.pick(&[1usize, 1, 50, 200, 3000])) };
             (Packet::from(UserId::from_str(pv, &s).map_err(e)?), format!("UserId::from_str({pv:?}, {} bytes)", s.len()))
         }
         10 => {
